@@ -3,6 +3,8 @@
 package spynode
 
 import (
+	"sync"
+	"strings"
 	"sync/atomic"
 	"bytes"
 	"fmt"
@@ -63,7 +65,11 @@ func (w *txWorld) tracef(f string, a ...interface{}) {
 	}
 }
 
+var txWorldFindMu sync.Mutex
+
 func (w *txWorld) find(prop, sig, detail string) {
+	txWorldFindMu.Lock()
+	defer txWorldFindMu.Unlock()
 	for _, f := range w.finds {
 		if f.sig == sig {
 			return
@@ -142,7 +148,21 @@ func (w *txWorld) boot(store *verifkit.Store) error {
 	if ok, why := s.converged(); !ok || !e.node.state.IsReady() {
 		return fmt.Errorf("boot: node did not sync (%s, ready=%v)", why, e.node.state.IsReady())
 	}
-	e.log.onEvent = nil
+	// online (C04): a notification's merkle proof is for a block the node holds at that moment
+	node := e.node
+	e.log.onEvent = func(ev recEvent) {
+		if ev.Handler != 0 || (ev.Kind != "tx" && ev.Kind != "update") || ev.State.MerkleProof == nil {
+			return
+		}
+		h := *ev.State.MerkleProof.BlockHeader.BlockHash()
+		if !node.blocks.Contains(&h) {
+			name := ev.TxID.String()[:8]
+			if ti := w.byID[ev.TxID]; ti != nil {
+				name = ti.name
+			}
+			w.find("C04", "C04/proof-for-block-not-held/"+ev.Kind, fmt.Sprintf("%s: %s notification carries a merkle proof for block %s, which the node does not hold (it was orphaned)", name, ev.Kind, h.String()[:8]))
+		}
+	}
 	for _, b := range w.tip.Chain() {
 		if !w.blocksProcessed[b.Hash] && b.Height >= w.start {
 			// processed during this (re)sync: blocks mined while the node was down
@@ -222,6 +242,7 @@ func randB(r *rand.Rand, n int) []byte {
 // arrive delivers a transaction to the node from a source; pump=false leaves it in the channel.
 func (w *txWorld) arrive(ti *txInfo, source string, pump bool) {
 	w.tracef("arrive %s via %s (relevant=%v, pump=%v)", ti.name, source, ti.relevant, pump)
+	mark := len(w.e.log.snapshot())
 	ready := w.e.node.state.IsReady()
 	inv := wire.NewMsgInv()
 	inv.AddInvVect(wire.NewInvVect(wire.InvTypeTx, &ti.id))
@@ -268,6 +289,21 @@ func (w *txWorld) arrive(ti *txInfo, source string, pump bool) {
 	})
 	if pump {
 		w.pumpTxs()
+	}
+	if strings.HasPrefix(source, "untrusted") {
+		// C12: nothing an untrusted connection sends makes the node report a transaction safe
+		// (or confirmed): judge the notifications this delivery produced
+		for _, ev := range w.e.log.snapshot()[mark:] {
+			if ev.TxID != ti.id || ti.local || ti.trustedVouched {
+				continue // (what else was waiting in the channel is not this delivery's doing)
+			}
+			if (ev.Kind == "tx" || ev.Kind == "update") && ev.State.Safe && ev.State.MerkleProof == nil {
+				w.find("C12", "C12/untrusted-delivery-caused-safe-report/"+ev.Kind, fmt.Sprintf("%s delivered by an untrusted peer (%s) was reported safe in the course of that delivery (orphaned %d times before)", ti.name, source, ti.orphaned))
+			}
+			if (ev.Kind == "tx" || ev.Kind == "update") && ev.State.MerkleProof != nil {
+				w.find("C12", "C12/untrusted-delivery-caused-confirmation/"+ev.Kind, fmt.Sprintf("a notification with a merkle proof followed the delivery of %s by an untrusted peer", ti.name))
+			}
+		}
 	}
 }
 
